@@ -461,6 +461,8 @@ def _worker(args):
             spec, info = GEN[path](common.sub_rng(seed, "encodecorr2", "headers", path, k), k, vary=True)
         else:
             spec, info = GEN[path](common.sub_rng(seed, "encodecorr2", path, k), k)
+        if fixed is None:
+            ec.draw_unserialized(seed, spec, info, "encodecorr2", path, k, *map(str, rest))
         out = dict(spec=spec, info=info, path=path)
         try:
             bspec = {kk: v for kk, v in spec.items() if kk not in ("_post", "_nest")}
